@@ -100,6 +100,23 @@ CHECKS = {
         "A worker crash (memory corruption) is isolated to the single input and reported.",
         "DESIGN.md §4 C05",
     ),
+    "C06": (
+        "model_checking",
+        "explicit-state BFS with history replay over application writes and credit-granting peer moves, with a wire monitor on independently decrypted packets and an exact-credit drain check per state",
+        "A real sending endpoint whose peer granted (stream, connection, stream-count) limits (6,11,1), (6,11,0), "
+        "(0,0,0) or (7,7,2) through real transport parameters executes every sequence (depth 2-4) of writes/FIN/"
+        "reset on 3 streams interleaved with MAX_DATA / MAX_STREAM_DATA / MAX_STREAMS updates (equal, +1, "
+        "large), ack-all, time-threshold loss of all but the newest packet, PTO and STOP_SENDING. Every packet "
+        "it emits is decrypted with refquic and checked: STREAM/RESET_STREAM offsets within the latest "
+        "per-stream limit received, sum of highest offsets within MAX_DATA, no frame naming a stream beyond "
+        "MAX_STREAMS. In every reached state a drain raises each limit to EXACTLY what the written data needs "
+        "and acknowledges: everything written must then reach the wire, so credit charged for "
+        "retransmissions shows up as starvation. 0-RTT resumption against remembered limits is explored "
+        "under d<=1/2 network deviations.",
+        "Depth 3 on two client configurations and 2 on a server one (quick); 4/3 on five configurations "
+        "(thorough). All credit frames the harness sends are delivered (loss of credit frames not modelled).",
+        "DESIGN.md §4 C06",
+    ),
     "C07": (
         "model_checking",
         "explicit-state BFS with history replay over frames from a key-holding peer, against a reference receive-side flow controller fed from the wire",
@@ -209,6 +226,39 @@ CHECKS = {
         "streams not covered. One known finding (1xx interim responses).",
         "DESIGN.md §4 C14",
     ),
+    "C15": (
+        "exploration",
+        "exhaustive enumeration of header lists over a boundary-byte alphabet through a literal-only QPACK encoder, against an independent validator",
+        "Field sections built by an independent literal QPACK encoder (refh3, so arbitrary bytes reach the "
+        "decoder) are fed to real H3Connections for six message kinds (request, response, request/response "
+        "trailers, push promise, pushed response): every name and value of length <=3 (quick) / <=4 (thorough) "
+        "over the 13 boundary bytes as regular header and after ':', all 256 single bytes, every pseudo-header "
+        "sequence of length <=4/5 over 7 symbols with a regular header at every position, and 16 content-length "
+        "spellings x body sizes {0,n-1,n,n+1} x 7 framings x 5 deliveries. An independent three-valued "
+        "validator implementing exactly the rule list of the statement decides: rule broken => "
+        "H3_MESSAGE_ERROR and no event; no rule broken => the event with exactly those headers; where the "
+        "statement is silent either outcome passes.",
+        "Bounds on name/value length and sequence length as stated; pylsqpack is the decoder under test "
+        "together with aioquic. Spellings of content-length that are not 1*DIGIT are not judged.",
+        "DESIGN.md §4 C15",
+    ),
+    "C16": (
+        "model_checking",
+        "BFS with state merging (history replay on freshly connected real QuicConnection pairs) over a finite menu of hostile HTTP/3 / HTTP/0.9 stream messages x chunkings",
+        "H3Connection/H0Connection sit on a connected real QuicConnection pair. After each valid prefix (none, "
+        "SETTINGS, + complete request, + request blocked on the encoder stream), in both roles and with qlog "
+        "on/off, every message of a ~3600-entry menu (12 frame types x 8 length lies on request/control/push "
+        "streams, SETTINGS/MAX_PUSH_ID/GOAWAY/CANCEL_PUSH/PUSH_PROMISE payload variants, 4096-byte names, 10^4 "
+        "headers, truncated varints, every QPACK instruction first byte x short tails on encoder/decoder "
+        "streams, WebTransport, duplicate critical streams, datagrams; H0 request lines) is delivered whole, "
+        "byte-wise with a lone FIN, and split inside every varint, to depth 2 (quick) / 3 (thorough). "
+        "Oracle: handle_event returns a list; after a close the code is an H3 ErrorCode, datagrams_to_send "
+        "returns, and the real peer decrypts a CONNECTION_CLOSE carrying that code.",
+        "Below level 1 a partial-order reduction follows a message that changed only its own stream with "
+        "same-stream messages only. Thorough H3 part has a 540 s budget; a level that cannot finish is "
+        "reported as a cap.",
+        "DESIGN.md §4 C16",
+    ),
     "C17": (
         "exploration",
         "exhaustive enumeration of finite value/byte-string grammars against an independent codec (refcodec)",
@@ -224,6 +274,22 @@ CHECKS = {
         "Random 62/64-bit values and random bodies are not covered (sampling). Out-of-domain integers "
         "(push_uint8(256)) are recorded, not judged. `cryptography` AES-GCM is trusted for the Retry tag.",
         "DESIGN.md §4 C17",
+    ),
+    "C18": (
+        "model_checking",
+        "explicit-state BFS with history replay over connection-ID moves of a key-holding peer, oracle on the decrypted wire",
+        "Both roles of a real endpoint, from a state that knows only peer CID 0 and from the ordinary connected "
+        "state: NEW_CONNECTION_ID(seq, retire-prior-to) for seq 0..5 (duplicates and any order arise from the "
+        "BFS), RETIRE_CONNECTION_ID for issued/current/unknown numbers, the peer switching to another issued "
+        "CID, source address change, local change_connection_id(), ack-all, packet-threshold loss of the "
+        "newest CID-bearing packet, PTO; states merged on a digest of the CID bookkeeping. Oracle on the wire: "
+        "DCID sequence >= delivered retire-prior-to on every later packet, every abandoned ID announced in a "
+        "RETIRE_CONNECTION_ID that is eventually acknowledged (again after loss), never more peer IDs kept "
+        "than advertised (or CONNECTION_ID_LIMIT_ERROR), never more active issued IDs than the peer allows, "
+        "a PING to every issued unretired CID is acknowledged, a replacement follows each retirement.",
+        "Alphabet size is traded against depth: full (38 moves) depth 2-3, medium (17) depth 3-5, small (9) "
+        "depth 4-6. Routing in asyncio/server.py is C19's world.",
+        "DESIGN.md §4 C18",
     ),
     "C19": (
         "model_checking",
